@@ -98,7 +98,7 @@ func c10NewServer() {
 	st := &c10St
 	srv := &server{conf: &ServerConfig{dbFilePath: filepath.Join(st.dir, dataFilename)}}
 	maskBytes := make(net.IP, 4)
-	binary.BigEndian.PutUint32(maskBytes, ^uint32(0)<<(32-st.mask))
+	binary.BigEndian.PutUint32(maskBytes, uint32(^uint64(0)<<(32-st.mask)))
 	maskAddr, _ := netip.AddrFromSlice(maskBytes)
 	conf := &V4ServerConf{
 		Enabled:       true,
@@ -112,7 +112,10 @@ func c10NewServer() {
 	}
 	s4, err := v4Create(conf)
 	if err != nil {
-		panic("c10: v4Create: " + err.Error())
+		// V4ServerConf.Validate refused the configuration.
+		st.srv, st.s4 = nil, nil
+
+		return
 	}
 	s4.conf.dnsIPAddrs = []netip.Addr{c10Addr(c10SelfIP)}
 	srv.srv4 = s4
@@ -335,6 +338,9 @@ func c10Run(f []string) []string {
 		}
 		st.base = time.Now()
 		c10NewServer()
+		if st.s4 == nil {
+			return []string{"1", "0", "0", "rejected"}
+		}
 		reply = []string{"1", "0", "0", "ok"}
 		if !okOracle {
 			reply[3] = "badOracle"
@@ -438,9 +444,44 @@ func c10Gen(r *rand.Rand, emit0 vutil.Emit) {
 		if r.IntN(10) == 0 && mask != 28 {
 			gw = stop + 1 // gateway adjacent above the pool
 		}
+		// A fifth of the blocks probe V4ServerConf.Validate: tiny pools (one
+		// address is not a range), the gateway below / at the first / inside /
+		// at the last / above the pool or outside the subnet, reversed ranges,
+		// ranges leaving the subnet.  A configuration the server accepts is
+		// then driven until the pool is exhausted.
+		probe := r.IntN(5) == 0
+		if probe {
+			size = uint32(1 + r.IntN(4))
+			stop = start + size - 1
+			switch r.IntN(9) {
+			case 0:
+				gw = start - 1
+			case 1:
+				gw = start
+			case 2:
+				gw = start + size/2
+			case 3, 4:
+				gw = stop
+			case 5:
+				gw = stop + 1
+			case 6:
+				gw = 0x0A000001 // another network
+			case 7:
+				start, stop = stop, start // reversed (or a single address)
+			default:
+				if mask == 28 {
+					stop = base + 15 + uint32(r.IntN(3)) // the last address of the subnet and beyond
+				} else {
+					start = base - 1 - uint32(r.IntN(2)) // range start below the subnet (unless /16)
+				}
+			}
+		}
 		lt := vutil.Pick(r, []uint32{10, 60, 3600})
 
 		nmac := 3 + r.IntN(5)
+		if probe {
+			nmac = 5 + r.IntN(3)
+		}
 		macs := make([]string, nmac)
 		for i := range macs {
 			macs[i] = c10MAC(i)
@@ -513,6 +554,19 @@ func c10Gen(r *rand.Rand, emit0 vutil.Emit) {
 			f = append(f, vutil.Hex(k), vutil.B(o.err), vutil.Hex(o.norm), vutil.B(o.valid))
 		}
 		emit(f...)
+		if c10St.s4 == nil {
+			// rejected: the block ends with the verdict
+			continue
+		}
+		if probe {
+			// every client asks for an address and confirms it: the pool runs out
+			for _, m := range macs {
+				emit("C10.discover", vutil.Hex(m))
+				if l := c10Lookup(m); l != nil {
+					emit("C10.request", vutil.Hex(m), c10Utoa(c10SelfIP), "1", c10Utoa(c10U32(l.IP)), "0", vutil.Hex(pickHost()))
+				}
+			}
+		}
 
 		nops := 1 + r.IntN(80)
 		if r.IntN(4) == 0 {
